@@ -1,6 +1,5 @@
 SPECIFICATION TSpec
 CONSTANT NH = 16
 CONSTRAINT HighWater
-INVARIANTS ReaderSeesVersion SingleWriter StoreIsLastVersion
 POSTCONDITION Accepted
 CHECK_DEADLOCK FALSE
